@@ -34,10 +34,14 @@ type c03Case struct {
 	Cuts    []int     // mode B: byte offsets at which to cut (-1 = every offset)
 	RST     bool
 	Timeout time.Duration
+	Fault   fsFault // mode A, file back-end: armed when DATA line number Target sends its data
 }
 
 func (k *c03Case) Describe() []string {
 	l := []string{fmt.Sprintf("mode=%s store=%s %s timeout=%v rst=%v", k.Mode, k.Store, profileString(k.Net), k.Timeout, k.RST)}
+	if k.Fault.On {
+		l = append(l, k.Fault.String())
+	}
 	for i, ln := range k.Lines {
 		l = append(l, fmt.Sprintf("%3d %s %q", i, ln.Kind, clipStr(ln.Text, 80)))
 	}
@@ -150,6 +154,35 @@ func genC03(w *simrt.Choices, tier string, avoid map[string]bool) Case {
 				}
 			}
 			k.Lines = append(k.Lines, ln)
+		}
+		if k.Store.Backend == "file" {
+			// a disk fault while a message is being stored, and another transaction
+			// on the same connection afterwards
+			if k.Fault = genFSFault(w, 1); k.Fault.On {
+				add := func(kind, text, rcpt string) {
+					ln := c03Line{Kind: kind, Text: text, Rcpt: rcpt}
+					if kind == "data" {
+						tok++
+						ln.Tok = fmt.Sprintf("tok%d", tok)
+					}
+					k.Lines = append(k.Lines, ln)
+				}
+				rc := func() string {
+					return smtpLocals[w.Choose(6)] + fmt.Sprint(w.Choose(3)) + "@" + smtpDomains[w.Choose(len(smtpDomains))]
+				}
+				add("ehlo", "EHLO client.sim", "")
+				add("mail", "MAIL FROM:<first@origin.test>", "")
+				for i, n := 0, 1+w.Choose(3); i < n; i++ {
+					r := rc()
+					add("rcpt", "RCPT TO:<"+r+">", r)
+				}
+				add("data", "DATA", "")
+				k.Fault.Target = tok - 1
+				add("mail", "MAIL FROM:<second@origin.test>", "")
+				r := rc()
+				add("rcpt", "RCPT TO:<"+r+">", r)
+				add("data", "DATA", "")
+			}
 		}
 		return k
 	}
@@ -430,9 +463,25 @@ func c03History(c *Ctx, k *c03Case, exp *c03Expect) {
 				}
 				data := mkMessage(ln.Tok, "hdrfrom@sender.test", accepted, 30, 7)
 				exp.data[ln.Tok] = data
+				fired := fsFired(c.Sim)
+				disarm := func() int { return 0 }
+				if k.Fault.On && ln.Tok == fmt.Sprintf("tok%d", k.Fault.Target+1) {
+					disarm = k.Fault.arm(c.Sim)
+				}
 				fin := cl.sendData(data)
+				disarm()
 				if !wf("<data>", fin) {
 					return
+				}
+				if fin.Code != 250 && fsFired(c.Sim) > fired {
+					// the disk failed while this message was being stored and the server
+					// said so: each of ITS recipients may or may not have a copy
+					if tainted {
+						exp.skip[ln.Tok] = true
+					} else {
+						exp.may[ln.Tok] = append([]string{}, accepted...)
+					}
+					c.Stat("probe.transaction_refused_after_disk_fault", 1)
 				}
 				if fin.Code == 250 {
 					exp.must[ln.Tok] = append([]string{}, accepted...)
